@@ -690,7 +690,10 @@ func (g *functionGenerator) genCall(call *ssa.CallCommon) (insts []wat.Inst, ret
 		}
 		callee := call.StaticCallee()
 		if callee.Parent() != nil {
-			g.module.AddFunc(newFunctionGenerator(g.prog, g.module, g.tLib).genFunction(callee))
+			// 匿名函数可能已生成(被多次调用或同时作为值使用), 重复生成会重复注册其内部闭包类型
+			if fn_name, _ := wir.GetFnMangleName(callee, g.prog.Manifest.MainPkg); g.module.FindFunc(fn_name) == nil {
+				g.module.AddFunc(newFunctionGenerator(g.prog, g.module, g.tLib).genFunction(callee))
+			}
 		}
 
 		if len(callee.LinkName()) > 0 {
@@ -1463,7 +1466,9 @@ func (g *functionGenerator) genMakeDefer(inst *ssa.Defer) (insts []wat.Inst) {
 	case *ssa.Function:
 		callee := inst.Call.StaticCallee()
 		if callee.Parent() != nil {
-			g.module.AddFunc(newFunctionGenerator(g.prog, g.module, g.tLib).genFunction(callee))
+			if fn_name, _ := wir.GetFnMangleName(callee, g.prog.Manifest.MainPkg); g.module.FindFunc(fn_name) == nil {
+				g.module.AddFunc(newFunctionGenerator(g.prog, g.module, g.tLib).genFunction(callee))
+			}
 		}
 
 		for i, v := range inst.Call.Args {
